@@ -100,7 +100,8 @@ ASSUMPTIONS = [
     'valid pickles of something that is not an environment are not produced (the property speaks of '
     'unreadable files)',
 ]
-BUDGET = {'quick': {'cases': 6400, 'shards': 16, 'seconds': 150, 'shrink_s': 40},
+BUDGET = {'quick': {'cases': 6400, 'shards': 16, 'seconds': 150,
+                    'shrink_s': int(os.environ.get('C14_SHRINK_S', 40))},
           'thorough': {'cases': 200000, 'shards': 16, 'seconds': 1100, 'shrink_s': 60}}
 FLOORS = {}
 
@@ -112,8 +113,13 @@ FOREIGN = [b'\n', b'{"status": "DONE"}\n', b'# valjean environment\n', b'\xff\xf
 CORRUPT_KINDS = ('empty', 'trunc', 'nulpad', 'torn', 'foreign')
 
 
+COUNTERS = {'sweep_files': 0, 'sweep_truncation_points': 0}
+
+
 def setup(tier):
     import pickletools
+    for key in COUNTERS:
+        COUNTERS[key] = 0
     codes = {op.code.encode('latin-1') for op in pickletools.opcodes}
     for blob in FOREIGN:
         assert blob[:1] not in codes, blob
@@ -132,7 +138,8 @@ _ODD_NAMES = ['a b', ' lead', 'trail ', 'a.b', '.hidden', '...', 'valjean.env', 
 def _names():
     simple = st.sampled_from(['t%d' % i for i in range(8)])
     odd = st.one_of(st.sampled_from(_ODD_NAMES), st.text(_NAME_CHARS, min_size=1, max_size=5))
-    name = st.one_of(simple, simple, odd).filter(lambda s: s not in ('.', '..', ''))
+    name = st.integers(0, 2).flatmap(lambda k: odd if k == 0 else simple).filter(
+        lambda s: s not in ('.', '..', ''))
     size = st.sampled_from([1, 2, 2, 3, 3, 3, 4, 4, 5, 6])
     return size.flatmap(lambda n: st.lists(name, min_size=n, max_size=n, unique=True))
 
@@ -271,6 +278,10 @@ def _cls(kind):
     return kind
 
 
+class _Blocked(Exception):
+    """The history cannot be continued (see World.set_task)."""
+
+
 class World:
     """The scratch output root, the real environment and the model."""
 
@@ -334,7 +345,14 @@ class World:
         self.mem[name] = spec
         self.env[name] = self.build(spec)
         if spec['outdir']:
-            os.makedirs(self.tdir(name), exist_ok=True)
+            try:
+                os.makedirs(self.tdir(name), exist_ok=True)
+            except OSError as exc:
+                # only possible when the code under test created a file directly in the output
+                # root (write_env documents: one file per task *in the task's output directory*)
+                self.fail('stray_file', 'C14/stray_file_blocks_output_dir',
+                          f'cannot create the output directory of task {name!r}: {exc}')
+                raise _Blocked() from exc
 
     def drop_task(self, name):
         if name in self.mem:
@@ -538,16 +556,14 @@ class World:
             done_specs = [a for a in admits if a is not None and a['status'] == 'DONE']
             if got is _MISSING:
                 others = {kinds[n] for n in names if n != name}
-                neigh = ('all-intact' if others <= {'good'} else
-                         'some-missing' if others <= {'good', 'never-written', 'missing', 'nodir'}
-                         else 'some-faulty')
+                neigh = 'all-intact' if others <= {'good'} else 'not-all-intact'
                 self.fail('lost_done', f'C14/lost_done/neighbours={neigh}',
                           f'{name!r} was completely written as DONE with an output_dir but '
                           f'read_env({list(names)!r}) does not return it; file states {kinds}', sub)
             elif not done_specs:
                 own = _cls(kinds[name])
                 if kinds[name] == 'good':
-                    own = 'status=' + admits[0]['status']
+                    own = 'intact-not-done'
                 status = got.get('status') if isinstance(got, Mapping) else got
                 self.fail('phantom_done', f'C14/phantom_done/own={own}',
                           f'read_env returned {name!r} with status {status!r} but its file state is '
@@ -601,9 +617,10 @@ class World:
             if ok:
                 continue
             if state['kind'] == 'good':
-                self.fail('from_file_roundtrip',
-                          f'C14/from_file_roundtrip/status={state["admit"][0]["status"]}',
-                          f'Env.from_file of the intact file of {name!r} returned {got!r:.300}', sub)
+                what = 'nothing-returned' if not got else 'wrong-entry'
+                self.fail('from_file_roundtrip', f'C14/from_file_roundtrip/{what}',
+                          f'Env.from_file of the intact file of {name!r} (written with status '
+                          f'{state["admit"][0]["status"]}) returned {got!r:.300}', sub)
             else:
                 self.fail('from_file_partial', f'C14/from_file_partial/fault={_cls(state["kind"])}',
                           f'Env.from_file of the {state["kind"]} file of {name!r} returned '
@@ -679,12 +696,17 @@ def _run_sweep(case, world):
         if state['kind'] != 'good':
             continue
         path = world.path(name)
+        if not os.path.isfile(path):          # already reported as lost_done by the read above
+            world.labels.add('sweep-file-not-where-expected')
+            continue
         with open(path, 'rb') as fil:
             data = fil.read()
         world.labels.add('file<200B' if len(data) < 200 else 'file<1000B' if len(data) < 1000
                          else 'file>=1000B')
         was_done = state['admit'][0]['status'] == 'DONE'
         world.labels.add('sweep-target:' + state['admit'][0]['status'])
+        COUNTERS['sweep_files'] += 1
+        COUNTERS['sweep_truncation_points'] += len(data)
         for cut in range(len(data)):
             with open(path, 'wb') as fil:
                 fil.write(data[:cut] + (b'\0' * (len(data) - cut) if variant == 'nulpad' else b''))
@@ -713,12 +735,15 @@ def run_case(case):
         root = os.path.join(top, 'output')
         os.mkdir(root)
         world = World(case, root, out)
-        if case['kind'] == 'sweep':
-            world.labels.add('sweep:' + case['variant'])
-            _run_sweep(case, world)
-        else:
-            world.labels.add('hist')
-            _run_hist(case, world)
+        try:
+            if case['kind'] == 'sweep':
+                world.labels.add('sweep:' + case['variant'])
+                _run_sweep(case, world)
+            else:
+                world.labels.add('hist')
+                _run_hist(case, world)
+        except _Blocked:
+            world.labels.add('history-cut-short')
     finally:
         PLAN.reset()
         shutil.rmtree(top, ignore_errors=True)
@@ -737,6 +762,13 @@ def run_case(case):
     out.info = {'reads': world.reads, 'nontrivial_keys': len(world.nt_keys),
                 'final_file_states': {n: world.disk[n]['kind'] for n in world.pool}}
     return out
+
+
+def shard_extra(tier, seed, shard, nshards, tally, deadline):
+    """Extra coverage keys: how many files were swept over ALL their truncation points."""
+    return {'sweep_files': COUNTERS['sweep_files'],
+            'sweep_truncation_points': COUNTERS['sweep_truncation_points'],
+            'sweep_is_complete_per_file': True}
 
 
 MANIFEST = {
